@@ -615,7 +615,7 @@ fn contains_jsonb(left: &[u8], right: &[u8]) -> Result<bool, Error> {
                         }
                         let l_val = &left[l_val_offset..l_val_offset + l_jentry.length as usize];
                         if r_jentry.type_code != CONTAINER_TAG {
-                            if !l_val.eq(r_val) {
+                            if !scalar_eq(r_jentry.type_code, l_val, r_val) {
                                 return Ok(false);
                             }
                         } else if !contains_jsonb(l_val, r_val)? {
@@ -654,7 +654,25 @@ fn contains_jsonb(left: &[u8], right: &[u8]) -> Result<bool, Error> {
             }
             Ok(true)
         }
-        _ => Ok(left.eq(right)),
+        _ => {
+            let l_jentry = JEntry::decode_jentry(read_u32(left, 4)?);
+            let r_jentry = JEntry::decode_jentry(read_u32(right, 4)?);
+            Ok(l_jentry.type_code == r_jentry.type_code
+                && scalar_eq(l_jentry.type_code, &left[8..], &right[8..]))
+        }
+    }
+}
+
+// Equality of two scalar payloads of the same type: numbers are equal when their values are,
+// whatever their encoding (as `compare` and `Value` equality have it), other scalars by bytes.
+fn scalar_eq(type_code: u32, left: &[u8], right: &[u8]) -> bool {
+    if type_code == NUMBER_TAG {
+        match (Number::decode(left), Number::decode(right)) {
+            (Ok(l), Ok(r)) => l == r,
+            _ => false,
+        }
+    } else {
+        left.eq(right)
     }
 }
 
@@ -3147,7 +3165,7 @@ fn array_contains(arr: &[u8], arr_header: u32, val: &[u8], val_jentry: JEntry) -
         if jentry.type_code != val_jentry.type_code {
             continue;
         }
-        if val.eq(arr_val) {
+        if scalar_eq(jentry.type_code, arr_val, val) {
             return true;
         }
     }
